@@ -330,7 +330,8 @@ func (x *fnv) runAts(s *State, callee string, call *ast.CallExpr, after bool, re
 		}
 		x.atDone[at]++
 		env := x.newSpecEnv(s, x.entry, x.pkg.PkgPath)
-		x.bindLocals(env, nil)
+		x.bindLocals(env, x.curLp)
+		env.pos = x.curPos // names are resolved at the call site, not at the head of the enclosing loop
 		for i, a := range args {
 			env.vars[fmt.Sprintf("arg%d", i)] = a
 		}
